@@ -22,8 +22,35 @@ def tracer(frame, event, arg):
     return local
 
 
+hcount = 0
+
+
 def local(frame, event, arg):
-    global count, fired
+    global count, fired, hcount
+    if event == "line" and signame == "PAUSEH":
+        # preemption inside the signal handler: the k-th statement executed from the entry of handle_error on
+        if hcount or frame.f_code.co_name == "handle_error":
+            hcount += 1
+            if hcount == k and not fired:
+                fired = True
+                import json
+                import time
+
+                log = os.environ.get("XV_LOG")
+                me = os.environ.get("XV_PROC", "?")
+
+                def say(e):
+                    fd = os.open(log, os.O_WRONLY | os.O_APPEND | os.O_CREAT, 0o644)
+                    os.write(fd, (json.dumps({"e": e, "p": me, "k": k, "where": "handler"}) + "\n").encode())
+                    os.close(fd)
+
+                say("paused")
+                resume = os.environ.get("XV_RESUME")
+                t0 = time.time()
+                while not os.path.exists(resume) and time.time() - t0 < 120:
+                    time.sleep(0.005)
+                say("resumed")
+        return local
     if event == "line":
         count += 1
         if signame == "PAUSE" and not fired and count == k:
